@@ -4,7 +4,7 @@ import z3
 from vt.e1.values import (SIndexSet, SArr, SList, STT, SNum, SMaxRank, SInf, INF, SNone, NONE, SOpt, SFunc, SModule, SExc, Unsupported,
                           fresh, zi, zb, as_conc, is_conc_int, val_ite)
 from vt.e1 import npmodel
-from vt.e1.values import is_tag
+from vt.e1.values import is_tag, dtype_cplx, SDType
 
 
 def kwargs_of(ex, node, state):
@@ -214,16 +214,9 @@ def modfunc(ex, state, mod, name, args, kw, line):
         shp = shape_arg(args[:1])
         dt = kw.get('dtype', args[1] if len(args) > 1 else None)
         cx = False
-        if dt is not None:
-            if dt == 'complex' or dt == ('type', 'complex'):
-                cx = True
-            elif isinstance(dt, str) and dt in ('float',):
-                cx = False
-            elif isinstance(dt, SNone):
-                cx = False
-            elif dt == ('type', 'float') or dt == ('type', 'int'):
-                cx = False
-            else:
+        if dt is not None and not isinstance(dt, SNone):
+            cx = dtype_cplx(dt)
+            if cx is None:
                 raise Unsupported('dtype %r at line %d' % (dt, line))
         for s in shp:
             ctx.oblige(state, 'nonneg-dimension', line, zi(s) >= 0, 'negative dimensions are not allowed')
